@@ -79,6 +79,28 @@ def run_move(case):
     return None, line
 
 
+def run_move_default(case):
+    """an entity that offers the C-MOVE provider without overriding the hook: the documented default says there is nothing
+    to move, and the provider must conclude with exactly one final response reporting 0 performed and 0 remaining"""
+    import pydicom
+    from pynetdicom2 import sopclass as sc, dimsemessages as dm, dsutils, applicationentity as aem
+    ae = aem.AEBase(None, 16384)
+    a = svc.MockAssociation(ae)
+    q = pydicom.Dataset(); q.PatientID = '*'
+    rq, _ = svc.received(dm.CMoveRQMessage, case['pc'], message_id=case['msgid'], sop_class_uid=sc.PATIENT_ROOT_MOVE_SOP_CLASS, priority=0,
+                         move_destination='DESTAE', data_set=dsutils.encode(q, True, True))
+    try:
+        sc.qr_move_scp(a, svc.ctx(case['pc'], sc.PATIENT_ROOT_MOVE_SOP_CLASS), rq)
+    except Exception as e:  # pylint: disable=broad-except
+        return 'C-MOVE provider with the default on_receive_move raised %r: the request is left without a final response' % (e,)
+    w = [svc.fields(x) for x in a.wire()]
+    if len(w) != 1 or w[0]['status'] == 0xFF00:
+        return 'C-MOVE with nothing to move (default hook) answered with %d responses %r' % (len(w), [f['status'] for f in w])
+    if (w[0]['completed'] or 0, w[0]['remaining'] or 0) != (0, 0):
+        return 'final response of an empty move reports %r performed, %r remaining' % (w[0]['completed'], w[0]['remaining'])
+    return None
+
+
 def run_get(case):
     import pydicom
     from pynetdicom2 import sopclass as sc, dimsemessages as dm, dsutils, statuses, exceptions
@@ -133,6 +155,8 @@ def run_get(case):
 
 
 def replay(case):
+    if case.get('default_hook'):
+        return run_move_default(case)
     v, _ = (run_move if case['kind'] == 'move' else run_get)(case)
     return v
 
@@ -197,4 +221,14 @@ def run(chk):
         if w.strip() != g.strip():
             chk.broke('correspondence %s' % ('moveScp' if case['kind'] == 'move' else 'getScu'), 'model %s\nimpl  %s' % (w[:300], g[:300]), case)
             break
+    for pc, msgid in ((1, 1), (255, 65535), (7, 0)):
+        dc = {'default_hook': True, 'pc': pc, 'msgid': msgid}
+        try:
+            r = run_move_default(dc)
+        except Exception as e:  # pylint: disable=broad-except
+            common.raise_for(common.describe_exc(e))
+        chk.case(repr(dc), False, dc if pc == 1 else None)
+        chk.count('move:default-hook')
+        if r:
+            chk.violation('C19:move-default-hook', r, dc)
     chk.lean(['Dicom.Props.C19'])
